@@ -36,7 +36,9 @@ def parse_diagnostics(stderr):
 
 
 def run(path, extra=(), rlimit=None, timeout=1800, threads=None):
-    cmd = ["verus", path, "--output-json", "--time", "--multiple-errors", "8"]
+    cmd = ["verus", path, "--output-json", "--time"]
+    if "--multiple-errors" not in list(extra):
+        cmd += ["--multiple-errors", "8"]
     if rlimit:
         cmd += ["--rlimit", str(rlimit)]
     if threads:
